@@ -132,10 +132,29 @@ def o4(tier):
     from props import C01
     r = C01.o7(tier)
     r.oid = 'O4'
-    r.title = 'process_mls_message (shared with C01-O7): the echo of an own message is taken for the pending own commit only if it is a Commit and a commit is pending'
+    r.title = 'process_mls_message (shared with C01-O7): a message of a past epoch can reach the rollback decision only if it is a Commit (a re-delivered proposal or application message changes nothing); the echo of an own message is taken for the pending own commit only if it is a Commit and a commit is pending'
     return r
 
 
+def _shared(fn, oid, title):
+    r = fn()
+    r.oid = oid
+    r.title = title + ' -- ' + r.title[:200]
+    return r
+
+
+def o5(tier):
+    """after a restart the applied commit must still not beat itself: hydrated snapshots carry the 'unknown' timestamp 0, never a local clock value"""
+    from props import C11
+    return _shared(lambda: C11.o1(tier), 'O5', 'shared with C11-O1: a snapshot re-loaded after a restart carries no fabricated commit timestamp, so the re-delivered applied commit cannot compare as better than itself')
+
+
+def o6(tier):
+    """an invalidated record stays invalidated: the SQLite invalidation statements flag the records they report"""
+    from props import C10
+    return _shared(lambda: C10.o3(tier), 'O6', 'shared with C10-O3: on SQLite the rollback invalidation flags exactly the processed-message records (and messages) it selects, so the dedup gate keeps refusing them')
+
+
 def run(tier, seed, only=None):
-    obs = [('O1', o1), ('O2', o2), ('O3', o3), ('O4', o4)]
+    obs = [('O1', o1), ('O2', o2), ('O3', o3), ('O4', o4), ('O5', o5), ('O6', o6)]
     return [f(tier) for k, f in obs if not only or k in only]
